@@ -32,7 +32,12 @@ Inductive case :=
 | CRead (key hostname : bytes) (table : otable) (origin : option (bytes * bytes * bedrock))
         (must_reject : bool) (observed : outcome (bytes * bedrock))
 | CWrite (key original : bytes) (d : bedrock) (iv : bytes) (stab : stable) (otab : otable)
-         (ref_fields : option (bytes * list bytes)) (observed : option bytes).
+         (ref_fields : option (bytes * list bytes)) (observed : option bytes)
+(* summary of a concurrent encode stream on ONE Floodgate instance: [total] WriteHostname calls from 8
+   goroutines, [decoded] of them read back by the harness's reference decoder to exactly the encoded
+   fields, [distinct] different nonces among the outputs; [fail] = the first output that did not read back
+   (key, original host, data, output, real Open result for the output's nonce and ciphertext) *)
+| CConc (keylen total decoded distinct : N) (fail : option (bytes * bytes * bedrock * bytes * otable)).
 
 Definition beq_read (a b : outcome (bytes * bedrock)) : bool :=
   match a, b with
@@ -102,5 +107,13 @@ Definition judge (c : case) : verdict :=
       if negb (write_in_scope d) || (beq_decoded (floodgate_decode (open_tab key otab) key out) want && beq_decoded ref_fields want)
       then (if beq_opt_bytes mdl obs then VOk else VMismatch)
       else VViolation
+    end
+  | CConc keylen total decoded distinct fail =>
+    match fail with
+    | Some (key, original, d, out, otab) =>
+      (* the judge re-reads the reported output with the Floodgate decoder model *)
+      if beq_decoded (floodgate_decode (open_tab key otab) key out) (Some (original, bedrock_fields d))
+      then VMismatch else VViolation
+    | None => if N.eqb decoded total && N.eqb distinct total then VOk else VViolation
     end
   end.
